@@ -562,3 +562,15 @@ Definition metric_index (m : metric) : Z :=
   | MOpsInFn => 5 | MCfgBlocks => 6 | MBlocksInFn => 7 | MCalls => 8 | MSummary => 9
   | MLiveness => 10
   end.
+
+(* ------------------------------------------------------------------------------------ *)
+(** * A fixed configuration for worked examples *)
+
+(* The values DEFAULT_CAPS had when this model was written.  Used only by Examples that quote
+   concrete numbers, so that an edited constant re-checks every theorem (they are stated for
+   [default_caps] or for arbitrary caps) without invalidating a worked example. *)
+Definition caps_snapshot : caps :=
+  mkCaps 16384 131072 131072 262144 262144 262144 524288 65536 262144 16777216 33554432.
+
+Definition caps_eqb (a b : caps) : bool :=
+  forallb (fun f => cap_value a f =? cap_value b f) all_cap_fields.
